@@ -155,6 +155,22 @@ def defined_dispatch(ctx):
         ctx.ob("R05.2", "encode|DefinedType::" + v, callee == want, "DefinedType::%s is encoded by TypeEncoder::%s" % (v, callee) if callee == want else
                "DefinedType::%s is encoded by TypeEncoder::%s (expected %s): two constructors are cross-wired" % (v, callee, want), site="%s in %s" % (sp, f.id))
     ctx.ob("R05.2", "encode-rows", n >= 10, "DefinedType dispatch rows: %d" % n, nontrivial=False)
+    # the inner dispatch on the aliased / referenced value type: ValueType::V -> TypeEncoder method of the same name
+    # (a `borrow<r>` written by the `own` encoder silently changes every signature that mentions the alias)
+    nv = 0
+    for fn in ("defined", "value_type"):
+        g = db.fns.get("wac_graph::encoding::TypeEncoder::" + fn)
+        if g is None:
+            continue
+        ctx.touch(g)
+        for adt, v, callee, sp in tables.enum_to_callee(db, prov, g, "wac_graph::encoding::TypeEncoder::"):
+            if not adt.endswith("component::ValueType"):
+                continue
+            nv += 1
+            want = tables.snake(v)
+            ctx.ob("R05.2", "encode|%s|ValueType::%s" % (fn, v), callee == want, "ValueType::%s is encoded by TypeEncoder::%s" % (v, callee) if callee == want else
+                   "in TypeEncoder::%s, ValueType::%s is encoded by TypeEncoder::%s (expected %s): the handle kind / constructor is cross-wired" % (fn, v, callee, want), site="%s in %s" % (sp, g.id))
+    ctx.ob("R05.2", "encode-value-rows", nv >= 6, "ValueType dispatch rows: %d" % nv, nontrivial=False)
     # each TypeEncoder constructor method calls the wasm-encoder method of the same name
     pairs = {"tuple": "tuple", "list": "list", "fixed_size_list": "fixed_length_list", "option": "option", "result": "result", "variant": "variant",
              "record": "record", "flags": "flags", "enum_type": "enum_type", "stream": "stream", "future": "future", "borrow": "borrow", "own": "own"}
